@@ -22,7 +22,7 @@ type c19X struct {
 	Judged    bool
 }
 
-var c19Pos = []string{"before-helo", "greeted", "after-mail", "after-bdat-chunk", "after-transaction", "inside-auth-exchange"}
+var c19Pos = []string{"before-helo", "greeted", "after-mail", "after-bdat-chunk", "after-transaction", "inside-auth-exchange", "after-chunk-refused-by-backend"}
 var c19Kinds = []string{"boundary-line", "endless-line", "short-strings", "binary", "error-threshold"}
 
 // c19Prefix builds the conversation prefix for a position and returns the
@@ -40,18 +40,31 @@ func c19Prefix(t *Tape, sc *Scenario, pos int, steps *[]Step, cp *ConnBackendPla
 	switch pos {
 	case 2:
 		add(Step{Kind: kMail, Data: line("MAIL FROM:<ok-s@a.example>")})
-	case 3:
+	case 3, 6:
 		add(Step{Kind: kMail, Data: line("MAIL FROM:<ok-s@a.example>")})
 		add(Step{Kind: kRcpt, Data: line("RCPT TO:<ok-r@b.example>")})
 		k := t.Intn(3) * 1500
+		if pos == 6 {
+			// the backend refuses the message without reading it: the chunk fails
+			k = 1 + t.Intn(3000)
+			cp.Data = append(cp.Data, DataPlan{ReadMode: readK, ReadK: 0, V: Verdict{Kind: vSMTP, Code: 554, Enh: [3]int{5, 6, 0}, Msg: "refused early"}})
+		} else {
+			cp.Data = append(cp.Data, DataPlan{})
+		}
+		// pipelined in half of the runs: the hostile line then follows the chunk in the same segment
+		glued := t.Bool()
+		w := 1
+		if glued {
+			w = 0
+		}
 		*steps = append(*steps, Step{Kind: kBdat, Data: line("BDAT %d", k), Glue: k > 0})
 		if k > 0 {
-			*steps = append(*steps, Step{Kind: kPayload, Data: []byte(strings.Repeat("Z", k)), Wait: 1})
+			*steps = append(*steps, Step{Kind: kPayload, Data: []byte(strings.Repeat("Z", k)), Wait: w, Glue: glued})
 		} else {
-			(*steps)[len(*steps)-1].Wait = 1
+			(*steps)[len(*steps)-1].Wait = w
+			(*steps)[len(*steps)-1].Glue = glued
 		}
 		n++
-		cp.Data = append(cp.Data, DataPlan{})
 	case 5:
 		// an AUTH exchange is waiting for the client's response (334 sent)
 		sc.Srv.InsecureAuth = true
@@ -100,7 +113,7 @@ func genC19(t *Tape, tier string) *Scenario {
 		x.Limit = sc.Srv.MaxLine
 		d := []int{-2, -1, 0, 1, 2, 3, 50, x.Limit}[t.Named("c19delta", 8)]
 		x.Len = x.Limit + d
-		x.Pos = t.Named("c19pos", 6)
+		x.Pos = t.Named("c19pos", 7)
 		x.Form = t.Intn(2)
 		if x.Form == 1 && x.Pos != 1 && x.Pos != 4 {
 			x.Form = 0
@@ -139,7 +152,7 @@ func genC19(t *Tape, tier string) *Scenario {
 	case 1:
 		sc.Srv.MaxLine = []int{64, 200, 2000}[t.Named("c19limit", 3)]
 		x.Limit = sc.Srv.MaxLine
-		x.Pos = []int{0, 1, 3, 4}[t.Named("c19pos", 4)]
+		x.Pos = []int{0, 1, 3, 4, 6}[t.Named("c19pos", 5)]
 		x.Pre = c19Prefix(t, sc, x.Pos, &steps, &cp)
 		x.LineStart = streamLen(steps)
 		total := 70000
@@ -335,6 +348,14 @@ func classifyC19(sc *Scenario, h *History, st *Stats) string {
 	switch x.Kind {
 	case 0:
 		st.Probes[fmt.Sprintf("line_len_limit%+d", minInt(x.Len-x.Limit, 4))]++
+		if x.Pos == 6 {
+			st.Probes["probe_after_chunk_refused_by_backend"]++
+		}
+		for i, st2 := range sc.Conns[0].Steps {
+			if st2.Kind == kPayload && st2.Glue && i+1 < len(sc.Conns[0].Steps) && sc.Conns[0].Steps[i+1].Kind == kGarbage {
+				st.Probes["probe_line_in_the_same_segment_as_a_chunk"]++
+			}
+		}
 		// did the line cross the limit inside one segment or across segments?
 		for i, s := range sc.Conns[0].Steps {
 			if s.Kind == kGarbage && ch.StepOff[i] >= 0 {
@@ -347,7 +368,7 @@ func classifyC19(sc *Scenario, h *History, st *Stats) string {
 		}
 	case 1:
 		st.Probes["endless_line"]++
-		if x.Pos == 3 {
+		if x.Pos == 3 || x.Pos == 6 {
 			st.Probes["endless_line_after_bdat_chunk"]++
 		}
 	case 4:
@@ -373,7 +394,7 @@ func segKey(sc *Scenario) string {
 func init() {
 	register(&Property{
 		ID: "C19", Level: "exploration",
-		Rule:     "raw driver sends (0) a probe line of length limit-2..limit+3, limit+50, 2*limit (CRLF included; NOOP padded or MAIL padded with spaces) for limits 64/200/2000 at six conversation positions (the last one inside an AUTH exchange, where the line is the base64 response to a 334), whole or cut so that the limit is crossed inside one segment or across segments; (1) an endless LF-free stream of 70000 octets at four positions including after a BDAT chunk; (2) every string of length <= 4 over {NUL,CR,LF,SP,A,:,<} as a command line, repeated 1-4 times; (3) seeded binary; (4) mixes of valid and malformed commands around the fourth error, checked against a reference error counter. Every case is non-trivial by construction; distinct by (kind, limit, length, form, position, lines, segmentation). Length limit+1 is generated but not judged.",
+		Rule:     "raw driver sends (0) a probe line of length limit-2..limit+3, limit+50, 2*limit (CRLF included; NOOP padded or MAIL padded with spaces) for limits 64/200/2000 at seven conversation positions (after a BDAT chunk - lock-step or in the chunk's own segment -, after a chunk the backend refused, inside an AUTH exchange where the line is the base64 response to a 334, ...), whole or cut so that the limit is crossed inside one segment or across segments; (1) an endless LF-free stream of 70000 octets at four positions including after a BDAT chunk; (2) every string of length <= 4 over {NUL,CR,LF,SP,A,:,<} as a command line, repeated 1-4 times; (3) seeded binary; (4) mixes of valid and malformed commands around the fourth error, checked against a reference error counter. Every case is non-trivial by construction; distinct by (kind, limit, length, form, position, lines, segmentation). Length limit+1 is generated but not judged.",
 		Gen:      genC19,
 		Check:    checkC19,
 		Classify: classifyC19,
@@ -386,11 +407,11 @@ func init() {
 			for r := 0; r < reps; r++ {
 				for l := 0; l < 3; l++ {
 					for d := 0; d < 8; d++ {
-						for p := 0; p < 6; p++ {
+						for p := 0; p < 7; p++ {
 							out = append(out, map[string]int{"c19kind": 0, "c19limit": l, "c19delta": d, "c19pos": p})
 						}
 					}
-					for p := 0; p < 4; p++ {
+					for p := 0; p < 5; p++ {
 						out = append(out, map[string]int{"c19kind": 1, "c19limit": l, "c19pos": p})
 					}
 				}
@@ -409,7 +430,7 @@ func init() {
 		Real:        []string{"smtp.Server.Serve/handleConn", "smtp.Conn command loop, protocolError, panic recovery", "lineLimitReader", "parseCmd and argument parsers", "net/textproto", "bufio"},
 		Stub:        []string{"net.Listener (SimListener)", "net.Conn (SimConn; counts the octets the server pulls)", "Backend/Session (SimBackend)", "clock (synctest)", "SMTP client (raw driver)", "Server.ErrorLog (recording logger)"},
 		Assumptions: []string{"only unknown verbs and lines not of the shape VERB [SP args] are used as 'unrecognised or malformed'; argument-level syntax errors are counted neither way", "an unrecovered panic kills the worker process and is reported by verifctl as a process-crash violation"},
-		Required:    []string{"endless_line_after_bdat_chunk", "limit_crossed_across_segments", "limit_crossed_inside_one_segment", "error_threshold_reached", "line_len_limit+2", "line_len_limit+0"},
+		Required:    []string{"endless_line_after_bdat_chunk", "probe_after_chunk_refused_by_backend", "probe_line_in_the_same_segment_as_a_chunk", "limit_crossed_across_segments", "limit_crossed_inside_one_segment", "error_threshold_reached", "line_len_limit+2", "line_len_limit+0"},
 		QuickRuns:   120000, ThoroughRuns: 3000000,
 	})
 }
